@@ -257,7 +257,7 @@ def gen_optval(rng, kind=None):
         v = rng.choice(['640x480', '1280+720C', '1280x720lin', '5:00', '1:30', '0:30'])
         return v, v, True
     if kind == 'qstr':
-        v = rng.choice(['us-west-2', 'true', '12', 'a b', ' padded ', '', 'x=1', 'null', 'café'])
+        v = rng.choice(['us-west-2', 'true', '12', 'a b', ' padded ', '', 'x=1', 'null', 'café', '*@2x.png', 'ops@site'])
         return v, '"%s"' % v, True
     if kind == 'float':
         t = rng.choice(['0.5', '1.5', '2.0', '30.0', '0.125', '29.97', '0.1', '-0.25', '1e3', '2.5E-1', '0.0', '-0.0'])
@@ -583,7 +583,7 @@ def gen_rest(rng):
     eps, seen, flags = [], set(), []
     for _ in range(rng.choice([0, 1, 1, 2, 3, 4])):
         methods = rng.choice([None, ['get'], ['GET'], ['put', 'post'], ['post'], ['delete', 'get']])
-        path = rng.choice([None, 'one', 'two/{var}', 'a/b', '/lead', 'x'])
+        path = rng.choice([None, 'one', 'two/{var}', 'a/b', '/lead', 'x', '/items/{id}/', 'tail/'])
         if rng.random() < 0.01:
             path = '//dbl'
             flags.append('double-leading-slash')
